@@ -332,7 +332,12 @@ def run(tier):
         if not f:
             V.sample({"txs": c["txs"][:2], "bytes": r["bytes1"][:400]}, cap=2)
         for x in f[:1]:
-            V.violation(json.dumps(x)[:600], {"kind": "txlist", "prop": PROP, "txs": c["txs"], "finding": x}, {"what": x["what"]})
+            # input feature used by a known-finding signature: a whole-number split operand of 28 or more digits
+            # (the writer marks "fractional results allowed" by appending ".0", which then no longer fits 96 bits)
+            big = any(t.get("split") and any("." not in str(t["split"][k]) and len(str(t["split"][k]).lstrip("0")) >= 28 for k in ("post", "pre"))
+                      for t in c["txs"])
+            V.violation(json.dumps(x)[:600], {"kind": "txlist", "prop": PROP, "txs": c["txs"], "finding": x},
+                        {"what": x["what"], "err": str(x.get("err", "")), "split_operand_28_digits": big})
     return V.finish(floor_eval=100, floor_nontrivial=10, floors={"transactions_round_tripped": 2000})
 
 
